@@ -1348,7 +1348,7 @@ Definition ss_extend_ent (c : ss_conf) (s : ss_state) (now : Z) (a : ss_alloc) (
   let a1 := al_with_head a0 (al_owner a) (now + ss_tu_sec c) (al_size a + req_size) (al_parity a) (al_tpe a) in
   Some (st_with_blobbers s bls, a1).
 
-(* updateAllocationRequestInternal for an enterprise allocation; adding or replacing a blobber needs
+(* updateAllocationRequestInternal for an enterprise allocation; the owner's adding or replacing a blobber needs
    the new blobber's auth ticket, which the transactions of the engine never carry: refused *)
 Definition ss_update_ent (c : ss_conf) (s : ss_state) (now round sender alloc value size : Z) (extend0 set_tpe : bool)
            (add remove : option Z) (new_owner : option (Z * bool)) : option ss_state :=
@@ -1361,7 +1361,12 @@ Definition ss_update_ent (c : ss_conf) (s : ss_state) (now round sender alloc va
   _ <- ss_guard (negb nothing) ;;
   _ <- ss_guard (0 <=? size) ;;
   _ <- ss_guard (match al_bas a with [] => false | _ => true end) ;;
-  _ <- ss_guard (match add, remove with None, None => true | _, _ => false end) ;;
+  _ <- ss_guard (match add, remove with
+                 | Some x, _ => match ss_find_ba x (al_bas a) with None => true | Some _ => false end
+                 | None, Some _ => false
+                 | None, None => true
+                 end) ;;
+  _ <- ss_guard (match remove with Some r => match ss_find_ba r (al_bas a) with Some _ => true | None => false end | None => true end) ;;
   _ <- ss_guard (now <=? al_exp a) ;;
   '(s1, a1) <- (if ss_active (cf_demeter c) round && (0 <? value) then
                   s' <- ss_lock_from c s sender value ;;
@@ -1373,6 +1378,8 @@ Definition ss_update_ent (c : ss_conf) (s : ss_state) (now round sender alloc va
   '(s2, a2) <-
     (if negb (sender =? al_owner a1) then ss_extend_ent c s1 now a1 size
      else
+       (* owner: changeBlobbers needs the added blobber's auth ticket (a third party's add_blobber_id is ignored) *)
+       _ <- ss_guard (match add with None => true | Some _ => false end) ;;
        '(s'', a'') <- (if extend then ss_extend_ent c s1 now a1 size else Some (s1, a1)) ;;
        let a3 := al_with_head a'' (al_owner a'') (al_exp a'') (al_size a'') (al_parity a'') (al_tpe a'' || set_tpe) in
        match new_owner with
